@@ -118,14 +118,41 @@ def pool_names() -> list[str]:
         out += list(td["bound"])
     return sorted(set(out))
 TYPES = {
-    "t0": {"scalars": ["val"], "arrays": ["q"], "objs": {}, "objarrs": {}, "bound": {}},
+    "t0": {"scalars": ["val"], "arrays": ["q"], "objs": {}, "objarrs": {}, "bound": {"show": "sub", "peek": "fun"}},
     "t1": {"scalars": ["cnt"], "arrays": ["vals"], "objs": {"inner": "t0"}, "objarrs": {"cells": "t2"},
            "bound": {"init": "sub", "get": "fun", "run": "sub"}},
-    "t2": {"scalars": ["cnt"], "arrays": ["w"], "objs": {}, "objarrs": {},
+    # round 6: t2 extends t0 - it inherits the components `val`, `q` and the bindings `show`, `peek`,
+    # and has the parent component `t0`
+    "t2": {"scalars": ["cnt"], "arrays": ["w"], "objs": {}, "objarrs": {}, "extends": "t0",
            "bound": {"reset": "sub", "fetch": "fun", "stop_": "sub"}},
 }
-TYPES_COLLIDING = dict(TYPES, t2={"scalars": ["cnt"], "arrays": ["w"], "objs": {}, "objarrs": {},
+TYPES_COLLIDING = dict(TYPES, t2={"scalars": ["cnt"], "arrays": ["w"], "objs": {}, "objarrs": {}, "extends": "t0",
                                   "bound": {"init": "sub", "get": "fun", "stop_": "sub"}})
+
+
+def type_parents(types, t):
+    out = []
+    while types[t].get("extends"):
+        t = types[t]["extends"]
+        out.append(t)
+    return out
+
+
+def type_members(types, t, key):
+    """members of kind `key` of type `t`, inherited ones included (own first)"""
+    out = list(types[t][key])
+    for p_ in type_parents(types, t):
+        out += [x for x in types[p_][key] if x not in out]
+    return out
+
+
+def type_bindings(types, t, kind):
+    """[(binding, declaring type)] of type `t` with the given kind, inherited ones included"""
+    out = [(b, t) for b, k in types[t]["bound"].items() if k == kind]
+    for p_ in type_parents(types, t):
+        out += [(b, p_) for b, k in types[p_]["bound"].items() if k == kind and b not in [x[0] for x in out]
+                and b not in types[t]["bound"]]
+    return out
 OBJS = {"a": "t1", "b": "t2", "c": "t1"}
 # round 6: arrays of derived type - a designator may carry a subscript list on ANY part of its
 # component chain (`oa(i) % vals(j)`, `a%cells(k) % fetch()`), not only on the last one
@@ -819,6 +846,21 @@ class Gen:
             cands.append((k, v[1]))
         return self.r.choice(cands)
 
+    def via_parent(self, t):
+        """optionally the parent component (`b % t0 % q(1)`): [] or [(parent type name, None)]"""
+        ps = type_parents(self.u.types, t)
+        if ps and self.r.random() < 0.25:
+            self.note("parent-component")
+            return [(ps[0], None)]
+        return []
+
+    def members(self, t, key, parts):
+        """components of kind `key` reachable at the end of `parts` (after a parent component only
+        the parent's own and inherited ones)"""
+        if parts and parts[-1][0] in self.u.types and parts[-1][1] is None and parts[-1][0] in type_parents(self.u.types, t):
+            return type_members(self.u.types, parts[-1][0], key)
+        return type_members(self.u.types, t, key)
+
     def chain(self, depth):
         """(base, base subscripts | None, parts, type of the designated object): a designator of
         an object of derived type in which some part carries a subscript list"""
@@ -880,27 +922,32 @@ class Gen:
         if k < 0.60 and r.random() < 0.45:
             # round 6: a data reference / bound-function reference through an array of objects
             b, bs, parts, t = self.chain(depth)
-            td = self.u.types[t]
-            funs = [kk for kk, v in td["bound"].items() if v == "fun"]
+            funs = type_bindings(self.u.types, t, "fun")
             if funs and r.random() < 0.45:
                 self.note("bound-funref-through-array-element")
-                return ("tbfx", b, bs, parts, t, r.choice(funs), self.args(depth, 0, 2))
+                bn, owner = r.choice(funs)
+                if owner != t:
+                    self.note("inherited-binding")
+                return ("tbfx", b, bs, parts, owner, bn, self.args(depth, 0, 2))
             self.note("component-of-array-element")
+            parts = parts + self.via_parent(t)
             if r.random() < 0.7:
-                return ("compx", b, bs, parts + [(r.choice(td["arrays"]), self.subs(depth))])
-            return ("compx", b, bs, parts + [(r.choice(td["scalars"]), None)])
+                return ("compx", b, bs, parts + [(r.choice(self.members(t, "arrays", parts)), self.subs(depth))])
+            return ("compx", b, bs, parts + [(r.choice(self.members(t, "scalars", parts)), None)])
         if k < 0.60:
             self.note("component-array")
             o, t = self.obj()
             if self.u.types[t]["objs"] and r.random() < 0.4:
                 io, it = r.choice(list(self.u.types[t]["objs"].items()))
                 return ("comp", o, [(io, None), (r.choice(self.u.types[it]["arrays"]), self.subs(depth))])
-            return ("comp", o, [(r.choice(self.u.types[t]["arrays"]), self.subs(depth))])
+            return ("comp", o, [(r.choice(type_members(self.u.types, t, "arrays")), self.subs(depth))])
         if k < 0.70:
             self.note("bound-funref")
             o, t = self.obj()
-            b = r.choice([k for k, v in self.u.types[t]["bound"].items() if v == "fun"])
-            return ("tbf", o, t, b, self.args(depth, 0, 2))
+            b, owner = r.choice(type_bindings(self.u.types, t, "fun"))
+            if owner != t:
+                self.note("inherited-binding")
+            return ("tbf", o, owner, b, self.args(depth, 0, 2))
         if k < 0.74:
             self.note("constructor")
             return ("ctor", r.choice(["t0", "t1", "t2"]), self.args(depth, 1, 2))
@@ -925,11 +972,11 @@ class Gen:
             return ("arr", r.choice(self.u.warrs + [self.u.garr]), self.subs(1, 1))
         if k >= 0.75 and r.random() < 0.35:
             b, bs, parts, t = self.chain(1)
-            td = self.u.types[t]
             self.note("assign-to-component-of-array-element")
+            parts = parts + self.via_parent(t)
             if r.random() < 0.6:
-                return ("compx", b, bs, parts + [(r.choice(td["arrays"]), self.subs(1))])
-            return ("compx", b, bs, parts + [(r.choice(td["scalars"]), None)])
+                return ("compx", b, bs, parts + [(r.choice(self.members(t, "arrays", parts)), self.subs(1))])
+            return ("compx", b, bs, parts + [(r.choice(self.members(t, "scalars", parts)), None)])
         o, t = self.obj()
         if k < 0.88:
             return ("comp", o, [(r.choice(self.u.types[t]["scalars"]), None)])
@@ -940,15 +987,20 @@ class Gen:
         r = self.r
         if r.random() < 0.08:
             b, bs, parts, t = self.chain(0)
-            sbs = [kk for kk, v in self.u.types[t]["bound"].items() if v == "sub"]
+            sbs = type_bindings(self.u.types, t, "sub")
             if sbs:
                 self.note("call-bound-through-array-element")
-                return ("callbx", b, bs, parts, t, r.choice(sbs), self.args(0, 0, 2) if r.random() < 0.7 else None)
+                bn, owner = r.choice(sbs)
+                if owner != t:
+                    self.note("inherited-binding")
+                return ("callbx", b, bs, parts, owner, bn, self.args(0, 0, 2) if r.random() < 0.7 else None)
         if r.random() < 0.3:
             self.note("call-bound")
             o, t = self.obj()
-            b = r.choice([k for k, v in self.u.types[t]["bound"].items() if v == "sub"])
-            return ("callb", o, t, b, self.args(0, 0, 2) if r.random() < 0.7 else None)
+            b, owner = r.choice(type_bindings(self.u.types, t, "sub"))
+            if owner != t:
+                self.note("inherited-binding")
+            return ("callb", o, owner, b, self.args(0, 0, 2) if r.random() < 0.7 else None)
         if r.random() < 0.06 and Names.intr_s:
             # an intrinsic subroutine: nothing is invoked but what its arguments invoke
             self.note("call-intrinsic")
@@ -1918,7 +1970,7 @@ def classify_diff(spec: Spec, missing: set, extra: set, dup: list) -> tuple[set,
 def module_text(u: Universe) -> list[str]:
     L = ["module m_types", "  implicit none", f"  real :: {u.garr}(100)"]
     for tn, td in u.types.items():
-        L.append(f"  type :: {tn}")
+        L.append(f"  type, extends({td['extends']}) :: {tn}" if td.get("extends") else f"  type :: {tn}")
         for s in td["scalars"]:
             L.append(f"    integer :: {s}")
         for a in td["arrays"]:
@@ -1945,6 +1997,7 @@ def module_text(u: Universe) -> list[str]:
             else:
                 L += [f"  function {tn}_{b}(self, k, k2) result(r)", f"    class({tn}) :: self",
                       "    integer, optional :: k, k2", "    real :: r", "    r = 0.0", f"  end function {tn}_{b}"]
+    L += ["  function mk_t1(k) result(r)", "    integer, optional :: k", "    type(t1) :: r", "    r%cnt = 0", "  end function mk_t1"]
     for f in u.module_funcs:
         L += [f"  function {f}(p1, p2, p3) result(r)", "    real, optional :: p1, p2, p3", "    real :: r", "    r = 1.0",
               f"  end function {f}"]
@@ -1984,7 +2037,7 @@ def host_names(cu, host_vars=None):
     result variable (`host_vars`: the host's `variables` as the model computed them)."""
     u = cu.host if cu.ctx == "internal" else cu
     types = list(TYPES)
-    procs = list(u.module_funcs) + list(u.module_subs) + [f"{t}_{b}" for t, td in u.types.items() for b in td["bound"]]
+    procs = list(u.module_funcs) + list(u.module_subs) + [f"{t}_{b}" for t, td in u.types.items() for b in td["bound"]] + ["mk_t1"]
     if u.ctx in ("same-module", "other-module"):
         procs.append(UNIT_NAME)      # a sibling of itself in its module; a program / external procedure has no host
     procs += list(u.internal_names) + list(u.spec.iface_ext) + list(u.generics)
@@ -1992,6 +2045,75 @@ def host_names(cu, host_vars=None):
     if cu.ctx == "internal":
         hv += list(host_vars or []) + [a.lower() for a in u.spec.args] + ([u.spec.ret.lower()] if u.spec.ret else [])
     return procs, types, hv
+
+
+# --------------------------------------------------------------------------
+# what the chain model (CallsChain.lean) is told about the generated file (round 6)
+# --------------------------------------------------------------------------
+
+
+def world_fields(u) -> tuple[str, list[str]]:
+    """(procedures visible from the scope of the derived types `name:result type;...`,
+    one field per derived type `name|binding:declaring type;...|component:type;...|parent;...`)
+    - from the GENERATED declarations, inherited members included"""
+    u = u.host if u.ctx == "internal" else u
+    types = u.types
+    tds = []
+    for tn in types:
+        ps = type_parents(types, tn)
+        bound = [(b, tn) for b in types[tn]["bound"]]
+        for p_ in ps:
+            bound += [(b, p_) for b in types[p_]["bound"] if b not in [x[0] for x in bound]]
+        comps = []
+        for t_ in [tn] + ps:
+            td = types[t_]
+            own = ([(c, "integer") for c in td["scalars"]] + [(c, "real") for c in td["arrays"]]
+                   + ([("pvals", "real")] if t_ == "t1" else []) + list(td["objs"].items()) + list(td["objarrs"].items()))
+            comps += [c for c in own if c[0] not in [x[0] for x in comps]]
+        tds.append(f"{tn}|" + ";".join(f"{b}:{o}" for b, o in bound) + "|" + ";".join(f"{c}:{t_}" for c, t_ in comps)
+                   + "|" + ";".join(ps))
+    procs = ([(f, "real") for f in u.module_funcs] + [(s_, "") for s_ in u.module_subs]
+             + [(f"{t}_{b}", "real" if k == "fun" else "") for t, td in types.items() for b, k in td["bound"].items()]
+             + [("mk_t1", "t1")] + [(g, "") for g in u.generics])
+    if u.ctx in ("same-module",):
+        procs.append((UNIT_NAME, "real" if u.unit_kind == "function" else ""))
+    return ";".join(f"{n}:{t_}" for n, t_ in procs), tds
+
+
+def var_types(cu) -> str:
+    """`name:type name;...` for every entity the generated specification part (and, for an internal
+    procedure, the host's) declares with a derived type"""
+    out = {}
+    specs = ([cu.host.spec] if cu.ctx == "internal" else []) + [cu.spec]
+    for sp_ in specs:
+        for st in sp_.stmts:
+            if st[0] != "T":
+                continue
+            m = re.match(r"(?:type|class)\s*\(\s*(\w+)\s*\)\s*$", st[1].strip(), re.I)
+            for n, _ in st[4]:
+                if m:
+                    out[n.lower()] = m.group(1).lower()
+                else:
+                    out.pop(n.lower(), None)
+    return ";".join(f"{n}:{t_}" for n, t_ in out.items())
+
+
+def probe_chains(rng: random.Random, cu, n: int) -> list[list[str]]:
+    """random label chains over the names of the universe (sensible designators and nonsense):
+    `_find_chain_item` is total, the model must agree with it on every chain"""
+    u = cu.host if cu.ctx == "internal" else cu
+    roots = ["a", "b", "c", "oa", "ob", "x", "i", "garr", "t0", "t1", "t2", "mk_t1", "zz", UNIT_NAME] + list(cu.arrs) + list(cu.funcs) + list(cu.subs) + list(cu.extf)
+    inner = ["val", "q", "cnt", "vals", "inner", "cells", "w", "pvals", "t0", "t1", "zz", "mk_t1", "t1_get"] + list(u.module_funcs[:2])
+    for td in u.types.values():
+        inner += list(td["bound"])
+    out = []
+    for _ in range(n):
+        ln = rng.choice([1, 2, 2, 3, 3, 4])
+        ch = [rng.choice(roots[:12] if rng.random() < 0.7 else roots)]
+        for _ in range(ln - 1):
+            ch.append(rng.choice(inner))
+        out.append([c.lower() for c in ch])
+    return out
 
 
 # --------------------------------------------------------------------------
@@ -2014,9 +2136,23 @@ class Impl:
             return list(self.rd.FortranReader(str(path), s.docmark, s.predocmark, s.docmark_alt, s.predocmark_alt,
                                               fixed=fixed, length_limit=s.fixed_length_limit))
 
-    def run(self, srcdir: Path):
+    def item_str(self, it) -> str:
+        """what `_find_chain_item` returned, in the notation of the chain model"""
+        sf = self.sf
+        if it is None:
+            return "-"
+        if isinstance(it, sf.FortranVariable):
+            return "v:" + it.name.lower()
+        if isinstance(it, sf.FortranType):
+            return "t:" + it.name.lower()
+        if isinstance(it, sf.FortranBoundProcedure):
+            return "b:" + str(getattr(it.parent, "name", "?")).lower() + ":" + it.name.lower()
+        return "p:" + str(getattr(it, "name", "?")).lower()
+
+    def run(self, srcdir: Path, probes: dict | None = None):
         """per unit (the unit under test and its internal procedures): (pre-correlate chains,
-        post-correlate identities, scope), or an error string"""
+        post-correlate identities, scope, what `_find_chain_item` returns for the probe chains),
+        or an error string"""
         self.sf.namelist = self.sf.NameSelector()
         settings = self.st.ProjectSettings(src_dir=[srcdir], preprocess=False, dbg=False)
         try:
@@ -2034,9 +2170,36 @@ class Impl:
                              "args": [str(getattr(a, "name", a)).lower() for a in getattr(un, "args", [])],
                              "retvar": (str(getattr(un.retvar, "name", un.retvar)).lower()
                                         if getattr(un, "retvar", None) is not None else None)}
-            with common.quiet():
-                proj.correlate()
-            return ("ok", {un.name.lower(): (pre[un.name.lower()], [self.ident(c) for c in un.calls], scope[un.name.lower()])
+            # the probe chains are resolved by the real `_find_chain_item` at the moment the calls loop of
+            # `correlate` uses it (later the variables' types are rewritten into links): hooked on the
+            # first call per unit; a unit without recorded chains is not probed
+            found = {}
+            orig = self.sf.FortranCodeUnit._find_chain_item
+            wanted = {id(un): un.name.lower() for un in units}
+
+            def hooked(this, chain, orig=orig, found=found, wanted=wanted):
+                nm = wanted.get(id(this))
+                if nm is not None and nm not in found:
+                    found[nm] = None
+                    out = []
+                    for ch in (probes or {}).get(nm, []):
+                        try:
+                            out.append(self.item_str(orig(this, list(ch))))
+                        except AttributeError:
+                            # a function that is not correlated yet has no `all_types`: a chain that goes
+                            # THROUGH a function (`f()%x`, no Fortran designator) is outside the compared domain
+                            out.append("!")
+                    found[nm] = out
+                return orig(this, chain)
+
+            self.sf.FortranCodeUnit._find_chain_item = hooked
+            try:
+                with common.quiet():
+                    proj.correlate()
+            finally:
+                self.sf.FortranCodeUnit._find_chain_item = orig
+            return ("ok", {un.name.lower(): (pre[un.name.lower()], [self.ident(c) for c in un.calls], scope[un.name.lower()],
+                                             found.get(un.name.lower()))
                            for un in units})
         except Exception as e:  # noqa
             return ("err", f"{type(e).__name__}: {e}")
@@ -2314,7 +2477,9 @@ def evaluate(impl: Impl, u, bodies, layout_seed, d: Path):
         old.unlink()
     path = src / ("c.f" if fixed else "c.f90")
     path.write_text("".join(l + "\n" for l in lines))
-    res = impl.run(src)
+    prng = random.Random(str((layout_seed, "chains")))
+    probes = {cu.name: probe_chains(prng, cu, 8) for cu in u.units()}
+    res = impl.run(src, probes)
     try:
         rl = impl.reader_lines(path, fixed)
     except Exception as e:  # noqa
@@ -2328,7 +2493,8 @@ def evaluate(impl: Impl, u, bodies, layout_seed, d: Path):
         r1 = res[1].get(cu.name) if res[0] == "ok" else None
         units.append({"cu": cu, "name": cu.name, "body": body, "stmts": per[cu.name]["stmts"],
                       "logical": per[cu.name]["logical"], "phys": per[cu.name]["phys"], "unit_lines": sl[0] if sl else None,
-                      "exec_statements": sl[1] if sl else None, "impl": r1})
+                      "exec_statements": sl[1] if sl else None, "impl": r1[:3] if r1 else None,
+                      "probes": probes[cu.name], "found": r1[3] if r1 else None})
     return {"lines": lines, "feat": feat, "impl": res, "units": units, "fixed": fixed}
 
 
@@ -2460,7 +2626,7 @@ def run(tier: str, seed: int, replay: str | None = None) -> int:
     n_unit = 1500 if tier == "quick" else 15000
     ev_micro, bad_micro, micro_hist = micro_stream(impl, drv, rng, n_micro, rep, 6 if tier == "quick" else 8)
 
-    kinds_hist, feat_hist, gate_hist, spec_hist = {}, {}, {}, {}
+    kinds_hist, feat_hist, gate_hist, spec_hist, chain_hist = {}, {}, {}, {}, {}
     distinct = set()
     samples = []
     n_bad_corr = 0
@@ -2494,6 +2660,14 @@ def run(tier: str, seed: int, replay: str | None = None) -> int:
             return (["c08.scope", ",".join(sp_.args), sp_.ret or "-", "1" if sp_.ret_typed else "0",
                      ",".join(ps), ",".join(ts), ",".join(hv), str(len(fields))] + fields + ["%".join(c) for c in pre])
 
+        def chain_req(un, host_vars, mode, chains):
+            cu = un["cu"]
+            base = scope_req(un, host_vars)
+            nfields = int(base[7])
+            tprocs, tds = world_fields(cu)
+            return (["c08.chains"] + base[1:7] + [var_types(cu), "mk_t1:t1", tprocs, str(len(tds))] + tds
+                    + base[7:8 + nfields] + [mode] + ["%".join(c) for c in chains])
+
         hosts = [(ev, un) for ev, un in flat if un["cu"].ctx != "internal"]
         host_resp = drv.batch([scope_req(un) for _, un in hosts])
         host_vars = {}
@@ -2503,6 +2677,13 @@ def run(tier: str, seed: int, replay: str | None = None) -> int:
         inners = [(ev, un) for ev, un in flat if un["cu"].ctx == "internal"]
         for (ev, un), r_ in zip(inners, drv.batch([scope_req(un, host_vars[ev["k"]]) for ev, un in inners])):
             un["model2"] = r_
+        # chains of every length (round 6): `unit.calls` after correlate == `keptAll`; `_find_chain_item` on
+        # random label chains == `chainItem`
+        hv_of = lambda ev, un: host_vars[ev["k"]] if un["cu"].ctx == "internal" else None
+        for (ev, un), rk, rf in zip(flat,
+                                    drv.batch([chain_req(un, hv_of(ev, un), "K", un["impl"][0] if un["impl"] else []) for ev, un in flat]),
+                                    drv.batch([chain_req(un, hv_of(ev, un), "F", un["probes"]) for ev, un in flat])):
+            un["model_k"], un["model_f"] = rk, rf
         gate_reqs = []
         for ev in results[: 300 if tier == "quick" else 2000]:
             for un in ev["units"]:
@@ -2576,6 +2757,30 @@ def run(tier: str, seed: int, replay: str | None = None) -> int:
                     n_bad_corr += 1
                     rep.tie_broken(f"correspondence unit/post-correlate: model and implementation differ on case {k} ({un['name']})",
                                    dict(case, impl=kept1, model=mo2, pre=pre_s))
+                # (a3) chains of every length: `unit.calls` after correlate == the chain model's `keptAll`
+                want = [("n:" + p[1]) if p[0] == "name" else ("b:" + p[1] + ":" + p[2]) if p[0] == "bound" else ("p:" + p[-1])
+                        for p in post]
+                mk = un["model_k"]
+                got = [(":".join(x.split(":")[:2]) if x.startswith("p:") else x) for x in mk[1:]]
+                if mk[0] != "ok" or got != want:
+                    n_bad_corr += 1
+                    rep.tie_broken(f"correspondence unit/chain-resolution: chain model and implementation differ on case {k} ({un['name']})",
+                                   dict(case, impl=want, model=mk, pre=pre_s))
+                for x in mk[1:]:
+                    chain_hist["kept:" + x[:1]] = chain_hist.get("kept:" + x[:1], 0) + 1
+                chain_hist["chains-longer-than-1"] = chain_hist.get("chains-longer-than-1", 0) + sum(1 for c in pre if len(c) > 1)
+                chain_hist["chains-longer-than-2"] = chain_hist.get("chains-longer-than-2", 0) + sum(1 for c in pre if len(c) > 2)
+                # (a4) `_find_chain_item` on random label chains == `chainItem`
+                mf = un["model_f"]
+                gotf = [":".join(x.split(":")[:2]) if x[:2] in ("v:", "p:") else x for x in mf[1:]]
+                if un["found"] is not None and (mf[0] != "ok" or len(gotf) != len(un["found"])
+                                                or any(a_ != b_ for a_, b_ in zip(gotf, un["found"]) if b_ != "!")):
+                    n_bad_corr += 1
+                    rep.tie_broken(f"correspondence unit/find-chain-item: chain model and implementation differ on case {k} ({un['name']})",
+                                   dict(case, chains=["%".join(c) for c in un["probes"]], impl=un["found"], model=mf))
+                for x, ch in zip(un["found"] or [], un["probes"]):
+                    key = f"probe:len{len(ch)}:" + x[:1]
+                    chain_hist[key] = chain_hist.get(key, 0) + 1
                 # (a'') the scope: `unit.variables` after `_cleanup` == the model's `scopeVarNames` of the
                 #       generated specification part; dummy arguments and result variable as generated
                 m_vars = [x for x in mo2[1].split(",") if x] if len(mo2) > 1 else None
@@ -2630,7 +2835,7 @@ def run(tier: str, seed: int, replay: str | None = None) -> int:
              "non-trivial = the real parser recorded at least one call chain for the unit; distinct by digest of the "
              "statements the reader delivered",
         samples=samples,
-        traces_validated_against_impl=ev_micro + 5 * n_units_total,
+        traces_validated_against_impl=ev_micro + 7 * n_units_total,
         correspondence_disagreements=n_bad_corr + bad_micro,
         oracle_failures=n_oracle_fail,
         implementation_errors=n_impl_err,
@@ -2639,6 +2844,7 @@ def run(tier: str, seed: int, replay: str | None = None) -> int:
         cascade_branch_histogram=dict(sorted(gate_hist.items())),
         specification_part_histogram=dict(sorted(spec_hist.items())),
         micro_histogram=micro_hist,
+        chain_resolution_histogram=dict(sorted(chain_hist.items())),
         generated_tables={"intrinsics": tinfo.get("intrinsics"), "intrinsics_probe": tinfo.get("intrinsics_probe"),
                           "names_added_to_specification": Names.added,
                           "names_no_longer_withheld": sorted(Names.spec - Names.impl),
